@@ -16,7 +16,7 @@ from vlib.runner import HarnessError, ShardResult, Violation
 ID = "C10"
 LEVEL = "exploration"
 RULE = ("a case is a history over one service id on strictly consecutive connections, drawn from {connect, config(c1|c2), "
-        "upload(e1|e2), search(t_w), message with a foreign sid, message of unknown type, close, reconnect, reconnect inside the server's cleanup pause (the pause is a gate owned by the driver), server restart, a complete workflow of a companion service whose id shares a 40-character prefix}; c1/c2 are valid "
+        "upload(e1|e2), search(t_w), message with a foreign sid, message of unknown type, close, reconnect, reconnect inside the server's cleanup pause (the pause is a gate owned by the driver), server restart, two requests pipelined on one connection, a hard restart (every server module back to its import-time state), a complete workflow of a companion service whose id shares a 40-character prefix}; c1/c2 are valid "
         "configurations differing in identifier size, e1/e2 index two databases that share keywords but not postings, so answering "
         "from the wrong config or index changes results. Executed over real loopback websockets against the real handler; the "
         "observable trace (init-echo state, ok / refused, result payloads) must equal the trace of a 3-state reference model "
@@ -83,6 +83,7 @@ class Driver:
         self.state, self.cfg, self.edb = 0, None, None
         self.trace = []
         self.refused = 0
+        self.reply_may_be_lost = False
         self.reconnects_after_accept = 0
         self.accepted_since_connect = False
         self.ever_accepted = False
@@ -215,58 +216,59 @@ class Driver:
             await c.settle()
             self.unsettled = 0
             return
+        if kind == "pipeline":
+            # two requests written back to back on one connection, BEFORE the outcome of the first is read; the server must handle
+            # them in order: the trace is the one of the two requests sent one after the other
+            await self.ensure_connected()
+            evs = [list(e) for e in ev[1]]
+            payloads = []
+            for e in evs:
+                if e[0] == "config":
+                    payloads.append(("config", pickle.dumps(self.fx["c"][e[1]]), {}))
+                elif e[0] == "upload":
+                    payloads.append(("upload_edb", self.fx["e"][e[1]], {}))
+                else:
+                    tok = self.fx["tok"][e[1].encode()]
+                    payloads.append(("token", tok, {"token_digest": hashlib.sha256(tok).digest()}))
+            for t, c, extra in payloads:
+                await self.rc.send(t, c, **extra)
+            # the server may refuse by closing the connection, and a reply that was queued for an EARLIER request of the same
+            # pipeline can be lost with it (the property promises state and answers, not delivery on a connection the server
+            # drops): when the model refuses a later request, closure is accepted in place of the earlier reply -- the model
+            # still advances, and the next init echo must report the advanced state
+            st, refusing = self.state, []
+            for e in evs:
+                ok = (e[0] == "config" and st == 0) or (e[0] == "upload" and st == 1) or (e[0] == "search" and st == 2)
+                refusing.append(not ok)
+                if ok and e[0] != "search":
+                    st += 1
+            for j, e in enumerate(evs):
+                if self.rc is None:
+                    break  # the connection was dropped by a refusal: later requests of the pair are never handled
+                self.trace.append(["(pipelined)"] + e)
+                self.reply_may_be_lost = any(refusing[j + 1:])
+                try:
+                    await self.expect_outcome(e)
+                finally:
+                    self.reply_may_be_lost = False
+            return
         if kind == "restart":
             await self.drain_and_close()
             await self.settle()
-            await self.srv.restart()
+            await self.srv.restart(hard=bool(ev[1]) if len(ev) > 1 else False)
             await self.ensure_connected()
             return
         await self.ensure_connected()
         if kind == "config":
-            i = ev[1]
-            await self.rc.send("config", pickle.dumps(self.fx["c"][i]))
-            if self.state == 0:
-                m = await self.next_msg()
-                if m["type"] != "config" or not isinstance(m.get("decoded"), dict) or m["decoded"].get("ok") is not True:
-                    self.fail("config upload in state 0 must be accepted, got %r" % ((m.get("type"), m.get("decoded"), m.get("code")),),
-                              "config_not_accepted")
-                self.state, self.cfg = 1, self.fx["c"][i]
-                self.ever_accepted = True
-            else:
-                await self.expect_refusal("config(c%d)" % i, "config")
+            await self.rc.send("config", pickle.dumps(self.fx["c"][ev[1]]))
+            await self.expect_outcome(ev)
         elif kind == "upload":
-            i = ev[1]
-            await self.rc.send("upload_edb", self.fx["e"][i])
-            if self.state == 1:
-                m = await self.next_msg()
-                if m["type"] != "upload_edb" or not isinstance(m.get("decoded"), dict) or m["decoded"].get("ok") is not True:
-                    self.fail("index upload in state 1 must be accepted, got %r" % ((m.get("type"), m.get("decoded"), m.get("code")),),
-                              "upload_not_accepted")
-                self.state, self.edb = 2, self.fx["e"][i]
-                self.ever_accepted = True
-            else:
-                await self.expect_refusal("upload(e%d)" % i, "upload_edb")
+            await self.rc.send("upload_edb", self.fx["e"][ev[1]])
+            await self.expect_outcome(ev)
         elif kind == "search":
-            w = ev[1].encode()
-            tok = self.fx["tok"][w]
-            digest = hashlib.sha256(tok).digest()
-            await self.rc.send("token", tok, token_digest=digest)
-            want = local_answer(self.fx, self.cfg, self.edb, tok) if self.state == 2 else None
-            if self.state == 2 and want is not None:
-                m = await self.next_msg()
-                if m["type"] != "result":
-                    self.fail("search in the ready state got %r instead of a result" % ((m.get("type"), m.get("decoded"), m.get("code")),),
-                              "no_result_in_ready_state")
-                try:
-                    got = pickle.loads(m["content"])
-                except Exception:
-                    got = None
-                if got != want:
-                    self.fail("search result %r differs from Search over the ACCEPTED config and index %r" % (got, want), "result_from_wrong_index")
-                if m.get("token_digest") != digest:
-                    self.fail("result does not echo the token digest", "token_digest")
-            else:
-                await self.expect_refusal("search", "result")
+            tok = self.fx["tok"][ev[1].encode()]
+            await self.rc.send("token", tok, token_digest=hashlib.sha256(tok).digest())
+            await self.expect_outcome(ev)
         elif kind == "foreign":
             other = hashlib.sha256(self.sid.encode()).hexdigest()
             payload = {"config": pickle.dumps(self.fx["c"][2]), "upload_edb": self.fx["e"][2], "token": self.fx["tok"][b"alpha"]}[ev[1]]
@@ -282,6 +284,61 @@ class Driver:
                 self.note_closed()
             elif m["type"] not in ("__timeout__", "control"):
                 self.fail("a message of unknown type %r was answered with %r" % (ev[1], (m.get("type"), m.get("decoded"))), "unknown_type_answered")
+        else:
+            raise ValueError(kind)
+
+    async def expect_outcome(self, ev):
+        """reads and checks the outcome of one already-sent request against the model (and advances the model)"""
+        kind = ev[0]
+        if kind == "config":
+            i = ev[1]
+            if self.state == 0:
+                m = await self.next_msg()
+                if m["type"] == "__closed__" and self.reply_may_be_lost:
+                    self.note_closed()
+                elif m["type"] != "config" or not isinstance(m.get("decoded"), dict) or m["decoded"].get("ok") is not True:
+                    self.fail("config upload in state 0 must be accepted, got %r" % ((m.get("type"), m.get("decoded"), m.get("code")),),
+                              "config_not_accepted")
+                self.state, self.cfg = 1, self.fx["c"][i]
+                self.ever_accepted = True
+            else:
+                await self.expect_refusal("config(c%d)" % i, "config")
+        elif kind == "upload":
+            i = ev[1]
+            if self.state == 1:
+                m = await self.next_msg()
+                if m["type"] == "__closed__" and self.reply_may_be_lost:
+                    self.note_closed()
+                elif m["type"] != "upload_edb" or not isinstance(m.get("decoded"), dict) or m["decoded"].get("ok") is not True:
+                    self.fail("index upload in state 1 must be accepted, got %r" % ((m.get("type"), m.get("decoded"), m.get("code")),),
+                              "upload_not_accepted")
+                self.state, self.edb = 2, self.fx["e"][i]
+                self.ever_accepted = True
+            else:
+                await self.expect_refusal("upload(e%d)" % i, "upload_edb")
+        elif kind == "search":
+            w = ev[1].encode()
+            tok = self.fx["tok"][w]
+            digest = hashlib.sha256(tok).digest()
+            want = local_answer(self.fx, self.cfg, self.edb, tok) if self.state == 2 else None
+            if self.state == 2 and want is not None:
+                m = await self.next_msg()
+                if m["type"] == "__closed__" and self.reply_may_be_lost:
+                    self.note_closed()
+                    return
+                if m["type"] != "result":
+                    self.fail("search in the ready state got %r instead of a result" % ((m.get("type"), m.get("decoded"), m.get("code")),),
+                              "no_result_in_ready_state")
+                try:
+                    got = pickle.loads(m["content"])
+                except Exception:
+                    got = None
+                if got != want:
+                    self.fail("search result %r differs from Search over the ACCEPTED config and index %r" % (got, want), "result_from_wrong_index")
+                if m.get("token_digest") != digest:
+                    self.fail("result does not echo the token digest", "token_digest")
+            else:
+                await self.expect_refusal("search", "result")
         else:
             raise ValueError(kind)
 
@@ -364,7 +421,12 @@ def st_case(draw, max_len):
         st.tuples(st.just("search"), st.sampled_from(["alpha", "beta", "gamma", "absent"])).map(list),
         st.tuples(st.just("foreign"), st.sampled_from(["config", "upload_edb", "token"])).map(list),
         st.tuples(st.just("unknown"), st.sampled_from(["delete", "init", "result", "control", ""])).map(list),
-        st.sampled_from([["reconnect"], ["reconnect"], ["reconnect_early"], ["reconnect_early"], ["close"], ["restart"], ["companion"]]))
+        st.sampled_from([["reconnect"], ["reconnect"], ["reconnect_early"], ["reconnect_early"], ["close"], ["restart"], ["restart", 1],
+                         ["companion"]]),
+        st.tuples(st.just("pipeline"), st.lists(st.one_of(
+            st.tuples(st.just("config"), st.sampled_from([1, 2])).map(list),
+            st.tuples(st.just("upload"), st.sampled_from([1, 2])).map(list),
+            st.tuples(st.just("search"), st.sampled_from(["alpha", "beta"])).map(list)), min_size=2, max_size=2)).map(list))
     return {"scheme": draw(st.sampled_from(SCHEMES)), "history": draw(st.lists(ev, min_size=1, max_size=max_len)),
             "seed": draw(st.integers(1, 5))}
 
@@ -377,7 +439,7 @@ def body(case, res):
         kinds = [e[0] for e in case["history"]]
         nt = bool(drv and drv.refused >= 1 and drv.reconnects_after_accept >= 1)
         cl = ["scheme:" + case["scheme"], "final_state:%s" % (drv.state if drv else "?")]
-        for k in ("foreign", "unknown", "restart", "reconnect_early", "companion"):
+        for k in ("foreign", "unknown", "restart", "reconnect_early", "companion", "pipeline"):
             if k in kinds:
                 cl.append("has_" + k)
         if drv and drv.refused:
@@ -415,7 +477,13 @@ def run_shard(spec, seed, tier):
         if spec["first"] == "config1":
             # explicit histories with a companion service (shared id prefix) before / after / between this service's steps
             for scheme in SCHEMES:
-                for hist in ([["config", 1], ["upload", 1], ["companion"], ["search", "alpha"], ["search", "beta"]],
+                for hist in ([["pipeline", [["upload", 1], ["upload", 2]]], ["reconnect"], ["search", "beta"]],
+                             [["config", 1], ["pipeline", [["upload", 1], ["upload", 2]]], ["reconnect"], ["search", "beta"]],
+                             [["pipeline", [["config", 1], ["config", 2]]], ["reconnect"], ["upload", 1], ["search", "alpha"]],
+                             [["pipeline", [["config", 1], ["upload", 1]]], ["pipeline", [["search", "alpha"], ["search", "beta"]]]],
+                             [["config", 1], ["reconnect"], ["upload", 1], ["restart", 1], ["search", "alpha"], ["upload", 2]],
+                             [["config", 1], ["upload", 1], ["restart", 1], ["search", "beta"], ["reconnect_early"], ["search", "alpha"]],
+                             [["config", 1], ["upload", 1], ["companion"], ["search", "alpha"], ["search", "beta"]],
                              [["companion"], ["config", 1], ["upload", 1], ["search", "alpha"], ["companion"], ["search", "beta"]],
                              [["config", 1], ["companion"], ["upload", 1], ["search", "alpha"], ["reconnect_early"], ["search", "beta"]],
                              [["config", 1], ["upload", 1], ["search", "alpha"], ["companion"], ["reconnect"], ["search", "alpha"]]):
